@@ -534,6 +534,10 @@ def cfi_conflict(f):
 def known_cause(lib, f):
     """The recorded finding (KNOWN_FINDINGS.txt, property C05) a function of a LibGen description runs into, or None.
     Findings with many faces are recognised by the shape of the function, not by a compiler's wording."""
+    if f.get("tmpl") and f.get("gen"):
+        # the fortran_generic entries of a function template keep the template's parameter list: the instantiations
+        # are wrapped with 'T' parameters again
+        return "template-with-generic"
     if f.get("tmpl") and f.get("ndef"):
         # the variants for default arguments are cloned from the template itself and never instantiated
         return "template-with-defaults"
